@@ -119,4 +119,26 @@ theorem ops_eq_tensor_in_new_basis (S1 SS K Kd L Ld ρ : Mat α n)
       = apply (transformTwoPass S1 SS (loopTerm K Kd L Ld)) (sandwich S1 SS ρ) := by
   rw [applyOps_covariant S1 SS K Kd L Ld ρ h3, applyOps_transform S1 SS K Kd L Ld ρ h1 h2]
 
+/-- the transpose `Kd = Kᵀ`, which the code recomputes from the transformed `K` instead of storing it, is the
+transformed transpose (orthogonal `S1 = SSᵀ`) -/
+theorem sandwich_transpose (S1 SS K : Mat α n) (hT : ∀ x y, S1 x y = SS y x) :
+    (fun i j => sandwich S1 SS K j i) = sandwich S1 SS (fun i j => K j i) := by
+  funext i j
+  simp only [sandwich, matMul, sumFin_eq_sum, hT, Finset.mul_sum]
+  rw [Finset.sum_comm]
+  exact Finset.sum_congr rfl fun y _ => Finset.sum_congr rfl fun x _ => by ring
+
+/-- **the Redfield operator form as the code holds it in the new basis** (`K, Λ, Λd` transformed, `Kd` recomputed as
+the transpose of the transformed `K`) **acts as the transformed tensor** -/
+theorem redfield_ops_in_new_basis (S1 SS K L Ld ρ : Mat α n)
+    (h1 : ∀ x y, ∑ c, S1 c x * S1 c y = if x = y then 1 else 0)
+    (h2 : ∀ x y, ∑ d, SS x d * SS y d = if x = y then 1 else 0)
+    (h3 : ∀ x y, ∑ a, SS x a * S1 a y = if x = y then 1 else 0)
+    (hT : ∀ x y, S1 x y = SS y x) :
+    applyOps (sandwich S1 SS K) (fun i j => sandwich S1 SS K j i) (sandwich S1 SS L) (sandwich S1 SS Ld)
+        (sandwich S1 SS ρ)
+      = apply (transformTwoPass S1 SS (loopTerm K (fun i j => K j i) L Ld)) (sandwich S1 SS ρ) := by
+  rw [sandwich_transpose S1 SS K hT]
+  exact ops_eq_tensor_in_new_basis S1 SS K (fun i j => K j i) L Ld ρ h1 h2 h3
+
 end QV.Prop
